@@ -109,6 +109,9 @@ func weaken(r *core.Rand, v cty.Value, o WeakenOpts, path string, top bool, rec 
 				*rec = append(*rec, Weakening{fmt.Sprintf("%s{+}", path), u.GoString()})
 			}
 		}
+		if r.Chance(1, 4) {
+			return SetViaHistory(r, es)
+		}
 		return cty.SetVal(es)
 	case ty.IsMapType():
 		if v.LengthInt() == 0 {
@@ -348,4 +351,50 @@ func nullableRefined(r *core.Rand, u cty.Value) cty.Value {
 		return u
 	}
 	return b.NewValue()
+}
+
+// SetViaHistory builds the set value of the given members the long way round: through a cty.ValueSet that is
+// wrapped into a set value and enumerated half-way, then grows further and is wrapped again. The result is the
+// second wrapping. On a library whose values are immutable it is the same value as cty.SetVal(es); it exists so
+// that set values with a past (snapshots of one ValueSet, copies, earlier enumerations) take part in every
+// workload that weakens sets. Falls back to cty.SetVal where a ValueSet cannot hold the members (marks, members of
+// several types).
+func SetViaHistory(r *core.Rand, es []cty.Value) (out cty.Value) {
+	plain := cty.SetVal(es)
+	ety := plain.Type().ElementType()
+	if plain.IsMarked() || ety.HasDynamicTypes() || len(es) == 0 {
+		return plain
+	}
+	for _, e := range es {
+		if e.ContainsMarked() || !e.Type().Equals(ety) {
+			return plain
+		}
+	}
+	defer func() {
+		if recover() != nil {
+			out = plain
+		}
+	}()
+	vs := cty.NewValueSet(ety)
+	k := r.Intn(len(es) + 1)
+	for _, e := range es[:k] {
+		vs.Add(e)
+	}
+	first := cty.SetValFromValueSet(vs)
+	_ = first.LengthInt()
+	for it := first.ElementIterator(); it.Next(); {
+		it.Element()
+	}
+	_ = vs.Values()
+	for _, e := range es[k:] {
+		vs.Add(e)
+	}
+	second := cty.SetValFromValueSet(vs)
+	if r.Bool() {
+		// the helper set lives on and changes after the value was taken
+		for _, e := range es[:k] {
+			vs.Remove(e)
+		}
+	}
+	return second
 }
